@@ -115,6 +115,7 @@ type setRun struct {
 	maxSteps int
 	hist     []string
 	dirty    bool
+	switched bool // the current value was replaced by a kept version since the last observation
 	removed  bool
 	maxSize  int
 	cen      census
@@ -210,6 +211,7 @@ func (r *setRun) step(rt *rapid.T) {
 	case "Diff":
 		o, om, _ := r.other(rt, op, present)
 		rec.Guard(rt, sig, func() { ns = cur.Diff(o) })
+		r.switched = true // built from the empty set, not by removal
 		for c := range om {
 			delete(r.cur.model, c)
 		}
@@ -217,6 +219,7 @@ func (r *setRun) step(rt *rapid.T) {
 	case "Intersect":
 		o, om, _ := r.other(rt, op, present)
 		rec.Guard(rt, sig, func() { ns = cur.Intersect(o) })
+		r.switched = true
 		for _, c := range present {
 			if !om[c] {
 				delete(r.cur.model, c)
@@ -295,7 +298,7 @@ func (r *setRun) step(rt *rapid.T) {
 		slot %= len(r.pool)
 		r.hist = append(r.hist, fmt.Sprintf("Switch(<-%d)", slot))
 		r.cur = sver{s: r.pool[slot].s, model: cloneModel(r.pool[slot].model)}
-		r.dirty = true
+		r.dirty, r.switched = true, true
 		return
 
 	case "Rebuild": // builder Add...Build / ToSet over the current elements plus extras
@@ -306,6 +309,7 @@ func (r *setRun) step(rt *rapid.T) {
 			elems, _ := drain(cur.Iterator(), 4*keySpace)
 			ns = buildSet(ctor, hs, append(elems, extra...))
 		})
+		r.switched = true
 		for _, x := range extra {
 			r.cur.model[hs.cls(x)] = true
 		}
@@ -319,7 +323,9 @@ func (r *setRun) check(rt *rapid.T) {
 		return
 	}
 	r.dirty = false
-	observeSet(rt, r.rec, r.sub, "current set", r.cur.s, r.cur.model, r.hs, &r.cen, r.history)
+	vc, ok := observeSet(rt, r.rec, r.sub, "current set", r.cur.s, r.cur.model, r.hs, &r.cen, r.history)
+	r.cen.transition(vc, ok, r.switched)
+	r.switched = false
 	if n := len(r.cur.model); n > r.maxSize {
 		r.maxSize = n
 	}
